@@ -1,6 +1,108 @@
 package checks
 
-import "github.com/nuetzliches/hookaido/verifharness/vlib"
+import (
+	"encoding/base64"
+	"encoding/json"
+	"fmt"
+	"os"
+	"path/filepath"
+	"time"
 
-// c05Restart is the real-binary restart sample (added with the L3 machinery).
-func c05Restart(c *vlib.Ctx) {}
+	"github.com/nuetzliches/hookaido/verifharness/l3"
+	"github.com/nuetzliches/hookaido/verifharness/vlib"
+)
+
+const c05L3Config = `ingress { listen %INGRESS% }
+pull_api { listen %PULL%
+ auth token raw:tok }
+admin_api { listen %ADMIN% }
+/p1 { pull { path /pull/p1 } }
+`
+
+// c05Restart: leases held by a process that is SIGKILLed are offered again by
+// the restarted process once they expire, and not before (real binary, wall clock).
+func c05Restart(c *vlib.Ctx) {
+	if _, err := os.Stat(l3.Bin()); err != nil {
+		c.Assume("product binary not built for this run: the real-binary restart sample of C05 was skipped (the abandon-and-reopen part covers the same clause in virtual time)")
+		return
+	}
+	root := filepath.Join(vlib.VerifRoot(), ".run", fmt.Sprintf("c05.%d", os.Getpid()))
+	_ = os.MkdirAll(root, 0o755)
+	defer os.RemoveAll(root)
+	trials := c.N(2, 12)
+	for t := 0; t < trials; t++ {
+		r := vlib.Derive(c.Seed, "C05L3", t)
+		p, err := l3.New(filepath.Join(root, fmt.Sprintf("t%d", t)), c05L3Config)
+		if err != nil {
+			c.Inconclusive("C05 L3: " + err.Error())
+			return
+		}
+		if err := p.StartHealthy(l3.StartOpts{}, 60*time.Second); err != nil {
+			c.Inconclusive("C05 L3 start: " + err.Error())
+			return
+		}
+		total := r.Range(5, 30)
+		for i := 0; i < total; i++ {
+			p.Ingress("/p1", []byte(fmt.Sprintf("mk:l3m%d:", i)), nil)
+		}
+		ttl := 3 * time.Second
+		leasedAt := time.Now()
+		resp := p.Pull("/pull/p1/dequeue", map[string]any{"batch": r.Range(1, total), "lease_ttl": ttl.String()}, "tok")
+		var out struct {
+			Items []struct {
+				PayloadB64 string `json:"payload_b64"`
+			} `json:"items"`
+		}
+		_ = json.Unmarshal(resp.Body, &out)
+		leased := map[string]bool{}
+		for _, it := range out.Items {
+			b, _ := base64.StdEncoding.DecodeString(it.PayloadB64)
+			leased[markerOf(b)] = true
+		}
+		p.Kill() // the lease holder's server dies; the worker never acks
+		if err := p.StartHealthy(l3.StartOpts{}, 60*time.Second); err != nil {
+			c.Violation(vlib.Signature{"class": "restart_failed"}, "C05: the process does not restart after SIGKILL with leases held: "+err.Error(), nil)
+			return
+		}
+		seen := map[string]int{}
+		early := 0
+		deadline := time.Now().Add(ttl + 20*time.Second)
+		for time.Now().Before(deadline) && len(seen) < total {
+			resp := p.Pull("/pull/p1/dequeue", map[string]any{"batch": 100, "lease_ttl": "1h"}, "tok")
+			got := time.Now()
+			var o2 struct {
+				Items []struct {
+					PayloadB64 string `json:"payload_b64"`
+				} `json:"items"`
+			}
+			_ = json.Unmarshal(resp.Body, &o2)
+			for _, it := range o2.Items {
+				b, _ := base64.StdEncoding.DecodeString(it.PayloadB64)
+				mk := markerOf(b)
+				seen[mk]++
+				// offered clearly before the lease could have expired (lease taken after leasedAt)
+				if leased[mk] && got.Before(leasedAt.Add(ttl-200*time.Millisecond)) {
+					early++
+				}
+			}
+			if len(o2.Items) == 0 {
+				time.Sleep(50 * time.Millisecond)
+			}
+		}
+		c.Count("evaluations", 1)
+		c.Count("l3_restart_trials", 1)
+		c.Distinct("nontrivial", fmt.Sprintf("l3restart:total%d:leased%d", total/10*10, len(leased)/5*5))
+		if early > 0 {
+			c.Violation(vlib.Signature{"class": "offered_before_lease_expiry_after_restart"}, fmt.Sprintf("%d messages leased before the crash were offered again before their lease_ttl (%s) could have expired", early, ttl), nil)
+		}
+		for mk, n := range seen {
+			if n > 1 {
+				c.Violation(vlib.Signature{"class": "offered_twice_after_restart"}, fmt.Sprintf("%s was offered %d times under 1h leases", mk, n), nil)
+			}
+		}
+		if len(seen) < total {
+			c.Inconclusive(fmt.Sprintf("C05 L3: %d of %d messages offered again within the watchdog (virtual-time version is decided by the abandon-and-reopen part)", len(seen), total))
+		}
+		p.Stop()
+	}
+}
